@@ -343,7 +343,8 @@ struct Session {
     vh::Out& o;
     vh::Rng& rng;
     std::unique_ptr<Rig> rig;
-    long ticks_done = 0;
+    long ticks_done = 0;   // elements of listed transfers (the file's budget)
+    int long_done = 0;     // long (counted) transfers: a few per file, outside the budget
 
     void fresh(int path) {
         verif_mem_observer = nullptr;
@@ -389,7 +390,7 @@ struct Session {
         o.raw("fin", fin_str(rig->dma(), dc)); o.raw("ah", ahbm_state(rig->ahbm()));
         o.num("memok", env.memok ? 1 : 0); o.str("out", out);
         o.end();
-        ticks_done += lng ? env.nev / per : expect;
+        if (lng) ++long_done; else ticks_done += expect;
         return out[0] == 'o';
     }
 };
@@ -410,12 +411,14 @@ int main(int argc, char** argv) {
     if (a.mode == "d8") {
         // double-word mode with size0 = 0xFFFF: 0x8000 elements expected; counter0 (u16) goes
         // 0xFFFE -> 0x0000 and never reaches size0.  Steps 0 keep both cursors inside the data memory.
-        for (int path = 0; path < 2; ++path) {
+        // --n 1 (quick tier): only the full Teakra through MMIO and only the trigger itself
+        bool brief = a.n <= 1;
+        for (int path = brief ? 1 : 0; path < 2; ++path) {
             s.fresh(path);
             Cfg c; c.sa = 0x10; c.da = 0x20; c.dw = 1; c.z[1] = 1; c.z[2] = 1;
-            c.z[0] = 0xFFFE; s.transfer(3, c, 0, 0x8000 + 64);                 // contrast: terminates after 0x7FFF
-            c.z[0] = 0xFFFF; bool ok = s.transfer(3, c, 0, 0x8000 + 64);       // D8
-            if (!ok) continue;                                                   // rig is mid-transfer: start over
+            if (!brief) { c.z[0] = 0xFFFE; s.transfer(3, c, 0, 0x8000 + 64); }  // contrast: terminates after 0x7FFF
+            c.z[0] = 0xFFFF; bool ok = s.transfer(3, c, 0, 0x8000 + 64);        // D8
+            if (!ok || brief) continue;                                          // rig is mid-transfer: start over
             c.z[0] = 0xFFFD; s.transfer(3, c, 0, 0x8000 + 64);
         }
         o.close();
@@ -474,7 +477,7 @@ int main(int argc, char** argv) {
             bool ok = s.transfer(dc, c, w.n, -1);
             if (!ok) break; // the rig stopped mid-transfer: start over with fresh objects
             // thorough: now and then a long DSP->DSP transfer with 16-bit edge sizes, accesses counted
-            if (thorough && rng.chance(1, 40)) {
+            if (thorough && s.long_done < 3 && rng.chance(1, 25)) {
                 static const u16 big[] = {0xFFFF, 0xFFFE, 0x8000, 0x7FFF, 0x8001, 0x4000, 20000};
                 Cfg l; l.dw = rng.below(2);
                 int dim = rng.below(3);
